@@ -481,6 +481,25 @@ def cli_gate(ck):
     cli = idx.mod(CLI)
     ent = cli.func('entry')
     ck.analysed(cli, ent)
+    # the force field's own messages (`[ warning ]` / `[ error ]` on blocks, links, modifications) are replayed from molecule.log_entries just before the
+    # count, once per place where the link / modification was applied: every writer *adds* its formatting map to the entry's list, none replaces the list
+    nsites = 0
+    for module, qual, fn in idx.all_functions():
+        if module.rel in (CLI, 'vermouth/ffinput.py') or qual.endswith('__init__') or qual.endswith('.copy') or qual.endswith('to_molecule'):
+            continue
+        for n in walk_local(fn):
+            plain = isinstance(n, ast.Assign) and any(isinstance(t, ast.Subscript) and '.log_entries[' in u(t) for t in n.targets)
+            upd = isinstance(n, ast.Call) and call_attr(n) in ('update', 'setdefault', 'pop', 'clear') and '.log_entries' in u(n.func.value)
+            aug = isinstance(n, ast.AugAssign) and '.log_entries[' in u(n.target)
+            if plain or upd:
+                nsites += 1
+                ck.ob('PROV-model-messages', module.loc(n), False, '{}: `{}` replaces what earlier applications of the same link / modification recorded for that message '
+                      '(each application adds one formatting map, so that each is logged and counted)'.format(qual, u(n)[:80]), key='PROV-model-messages|{}|{}'.format(module.rel, qual))
+            elif aug:
+                nsites += 1
+                ck.ob('PROV-model-messages', module.loc(n), isinstance(n.op, ast.Add), '{}: the formatting map of this application is added to the entry (`{}`)'.format(qual, u(n)[:70]),
+                      key='PROV-model-messages|{}|{}'.format(module.rel, qual))
+    ck.expect_count('PROV-model-messages sites', nsites, 3)
     # who finalises
     sites = []
     for module, qual, fn in idx.all_functions():
